@@ -19,6 +19,9 @@ struct Case {
     desc: String,
     final_kind: u8,
     end_bit_mod8: usize,
+    /// zlib stream decoded with the checksum ignored (IGNORE_ADLER32 / ZLibIgnoreChecksum): the
+    /// trailer still belongs to the stream and must be consumed exactly
+    ignore: bool,
 }
 
 fn trailer(rng: &mut Rng, n: usize) -> Vec<u8> {
@@ -79,13 +82,14 @@ fn gen_case(rng: &mut Rng, k: u64, big: bool) -> Case {
         _ => rng.below(65),
     };
     let t = trailer(rng, tn);
-    Case { stream, plain, zlib: zl, trailer: t, desc, final_kind, end_bit_mod8: end_bit % 8 }
+    Case { stream, plain, zlib: zl, trailer: t, desc, final_kind, end_bit_mod8: end_bit % 8, ignore: zl && rng.chance(1, 3) }
 }
 
 fn det(c: &Case, entry: &str, sched: &str, observed: &str) -> Json {
     Json::obj(vec![
         ("entry_point", Json::s(entry)),
         ("zlib", Json::Bool(c.zlib)),
+        ("checksum_ignored", Json::Bool(c.ignore)),
         ("stream_source", Json::s(&c.desc)),
         ("encoded_len", Json::u(c.stream.len())),
         ("stream_hex", Json::s(&hex_short(&c.stream, 500))),
@@ -98,7 +102,7 @@ fn det(c: &Case, entry: &str, sched: &str, observed: &str) -> Json {
 
 fn check_core(rep: &mut Report, c: &Case, input: &[u8], ring: bool, chunking: &Chunking, budgets: &[usize]) {
     let e = c.stream.len();
-    let base = if c.zlib { F_ZLIB } else { 0 };
+    let base = if c.zlib { F_ZLIB } else { 0 } | if c.ignore { F_IGNORE } else { 0 };
     let mode = if ring { BufMode::Ring(32768) } else { BufMode::Flat(c.plain.len() + 1) };
     let mut d = DecompressorOxide::new();
     let entry = if ring { "core_ring32k" } else { "core_flat" };
@@ -139,7 +143,8 @@ fn check_core(rep: &mut Report, c: &Case, input: &[u8], ring: bool, chunking: &C
 
 fn check_inflate(rep: &mut Report, c: &Case, input: &[u8], in_chunk: usize, out_sizes: &[usize], first_finish: bool) {
     let e = c.stream.len();
-    let mut st = InflateState::new_boxed(fmt_of(c.zlib));
+    let mut st = InflateState::new_boxed(if c.ignore { miniz_oxide::DataFormat::ZLibIgnoreChecksum } else { fmt_of(c.zlib) });
+    rep.count(if c.ignore { "inflate_runs_checksum_ignored" } else { "inflate_runs_checksum_verified_or_raw" });
     let entry = if first_finish { "inflate_first_finish" } else { "inflate_loop" };
     let sched = format!("in_chunk {} out_sizes {:?}", in_chunk, out_sizes);
     rep.count(&format!("runs_{}", entry));
@@ -230,7 +235,7 @@ fn check_c_api(rep: &mut Report, c: &Case, input: &[u8], in_chunk: usize, out_ch
             let end = (pos + in_chunk.max(1)).min(input.len());
             let mut in_size = end - pos;
             let mut out_size = out.len() - opos;
-            let flags = (if c.zlib { F_ZLIB } else { 0 }) | F_FLAT | if end < input.len() { F_MORE } else { 0 };
+            let flags = (if c.zlib { F_ZLIB } else { 0 }) | (if c.ignore { F_IGNORE } else { 0 }) | F_FLAT | if end < input.len() { F_MORE } else { 0 };
             let res = catch(|| unsafe { tinfl_decompress(&mut r, input.as_ptr().add(pos), &mut in_size, out.as_mut_ptr(), out.as_mut_ptr().add(opos), &mut out_size, flags) });
             status = match res {
                 Ok(s) => s,
